@@ -553,9 +553,11 @@ pub fn run(tier: Tier) -> i32 {
     // cycling, with a plain instruction and a call of another family at the end — state that
     // leaks from one expansion into the next (a cache, a counter that is not reset) shows here
     let reps = if tier.thorough() { 300 } else { 100 };
-    let mut n_rep = 0usize;
-    for mac in MACS {
-        for phase in 0..3usize {
+    let rep_work: Vec<(Mac, usize)> = MACS.iter().flat_map(|mac| (0..3usize).map(move |ph| (*mac, ph))).collect();
+    let n_rep = rep_work.len();
+    rep_work.par_iter().for_each(|(mac, phase)| {
+        let (mac, phase) = (*mac, *phase);
+        {
             let mut trace: Vec<Act> = MACS.iter().map(|m| Act::Def(*m, 0)).collect();
             let nsets = m.argsets[&mac].len();
             for i in 0..reps {
@@ -571,7 +573,6 @@ pub fn run(tier: Tier) -> i32 {
             trace.push(Act::Plain);
             trace.push(Act::Call(Mac::Dw, 2, 0));
             let r = m.render(&trace);
-            n_rep += 1;
             if let Some(expd) = &r.expanded {
                 let o1 = sut::build_str(&r.program);
                 let o2 = sut::build_str(expd);
@@ -588,7 +589,7 @@ pub fn run(tier: Tier) -> i32 {
                 }
             }
         }
-    }
+    });
     // alternation: calls of two families take turns, each with the same arguments every time -
     // what one macro's expansion changes (a flag, a constant, the position) must be seen by the
     // next expansion of the other one
